@@ -32,7 +32,13 @@ RULE = ('merges of generated probe directories: corpus (probe with exactly one s
         'with text order != numeric order, nested <x>/ks of equal base name, mixed case, digits) passed in text-sorted, '
         'text-reversed or arbitrary order, as str / Path / relative path / trailing separator / tuple, output directory '
         'default / named before-between-after the probes / nested / already existing, explicit probe_info or the default '
-        'labels (probes.description.tsv row k = k-th directory of the caller\'s list: judged by the harness on a third of them). Non-trivial = the merge completes with >= 2 probes and at least one time shared by '
+        'labels (probes.description.tsv row k = k-th directory of the caller\'s list: judged by the harness on a third of them). '
+        'On a quarter of the generated merges (and 8 corpus cases that run first) the HISTORY of the Merger object is drawn: '
+        '1..2 earlier merge() calls ON THE SAME OBJECT (a fifth: a fresh object per merge in the same process) over earlier '
+        'contents of the same directories (unchanged / re-curated: clusters split or merged, i.e. another number of cluster ids, '
+        'with their TSV rows / another recording: other spike, template and cluster counts), output directory kept (TSV files of '
+        'the earlier stage among those present now) or emptied in between; the observed merge is the last one and is judged '
+        'against the model of the present contents alone. Non-trivial = the merge completes with >= 2 probes and at least one time shared by '
         'two probes or one TSV file present; distinct = distinct abstract input.')
 EXHAUSTIVE = {'quick': True, 'thorough': True}
 CLAUSES = {
@@ -194,6 +200,79 @@ def _caller(inp, rng, force=False):
         inp['chk_labels'] = True
 
 
+def _earlier(p, rng):
+    """An earlier content of the directory of probe p (before a re-curation / a re-sorting): the same spikes with other
+    cluster ids (clusters split / merged since: another number of cluster ids), or another recording altogether; TSV files
+    among those the probe has now, with rows for the ids of that time."""
+    how = rng.choice(['same', 'recurated', 'recurated', 'recurated', 'other', 'other'])
+    if how == 'same' or not p['times']:
+        return copy.deepcopy(p)
+    dts = {key: p[key] for key in ('tdt', 'adt', 'idt', 'cdt', 'vec2d') if key in p}
+    if how == 'recurated':
+        e = copy.deepcopy(p)
+        e.pop('nt', None)
+        mode = rng.choice(['uncurated', 'fewer', 'more', 'more'])
+        mx = max(p['clu'])
+        if mode == 'uncurated':
+            e['clu'] = list(p['tmpl'])
+        elif mode == 'fewer':
+            cut = rng.randint(0, mx)
+            e['clu'] = [min(c, cut) for c in p['clu']]
+        else:
+            d = rng.randint(1, 3)
+            i = rng.randrange(len(p['clu']))
+            e['clu'] = [mx + d if (j == i or (c == p['clu'][i] and rng.random() < 0.5)) else c for j, c in enumerate(p['clu'])]
+        if e['cdt'] in ('int8', 'int16', 'uint16') and max(e['clu']) > 100:
+            e['clu'] = list(p['clu'])
+    else:
+        n = rng.choice([1, 2, 3, 5, 8, len(p['times'])])
+        e = _probe(_times(n, rng, span=rng.choice([1, 3, 6, 20])), rng, **dts)
+        if e['cdt'] in ('int8', 'int16') or e['idt'] in ('int8', 'int16'):
+            e['cdt'] = e['idt'] = 'int32'
+    e['meta'] = {}
+    _add_meta(e, rng, [fn for fn in META if fn in p.get('meta', {}) and rng.random() < 0.85])
+    return e
+
+
+def _norm_hist(inp):
+    """Keeps the history inside the regime: one earlier probe per directory; when the output directory is kept between the
+    merges, an earlier stage has no cluster_*.tsv file that the present merge does not write (= no probe has a row of it now:
+    the earlier merge's file would stay in the output directory: a stale file of the directory, which a fresh Merger pointed
+    at a used directory leaves too)."""
+    if not inp.get('history'):
+        for key in HIST_KEYS:
+            inp.pop(key, None)
+        return inp
+    now = {fn for p in inp['probes'] for fn, m in p.get('meta', {}).items() if m['rows']}      # files the merge writes now
+    for st in inp['history']:
+        assert len(st) == len(inp['probes'])
+        for e in st:
+            if inp.get('hist_out') != 'clear':
+                e['meta'] = {fn: m for fn, m in e.get('meta', {}).items() if fn in now}
+    return inp
+
+
+def _history(inp, rng, force=False):
+    """Draws the history of the Merger object: 1..2 earlier merges of earlier contents of the same directories (by the same
+    object, or a fresh object per merge in the same process), the output directory kept or emptied in between."""
+    ps = inp['probes']
+    if inp.get('big') or not ps or any(not p['times'] for p in ps) or any(
+            D11.n_templates(p) <= max(p['tmpl']) for p in ps):
+        return
+    inp['history'] = [[_earlier(p, rng) for p in ps] for _ in range(rng.choice([1, 1, 1, 2]))]
+    for st in inp['history']:
+        if sum(len(e['times']) for e in st) < 2:
+            st[0] = _probe([1, 1], rng)
+    if rng.random() < 0.2:
+        inp['hist_merger'] = 'fresh'
+    if rng.random() < 0.25:
+        inp['hist_out'] = 'clear'
+    _norm_hist(inp)
+
+
+HIST_KEYS = ('history', 'hist_merger', 'hist_out')
+
+
 def _nondecr(n, vals):
     return [list(c) for c in itertools.combinations_with_replacement(vals, n)]
 
@@ -223,6 +302,20 @@ def _corpus(rng):
     addc([P1, P2, P0, P1], names=['right', 'left', 'B', 'a'], out='0_out', out_exists=True, **{'pass': 'slash'})
     addc([P0, P1], names=['probe10', 'probe2'], **{'pass': 'tuple'})                 # control: text-sorted, not number-sorted
     addc([P0, P0], names=['y', 'x'], chk_labels=True)                              # identical content: only the labels differ
+    # the history of the Merger object (stage 6): merge(), the probes are re-curated (a non-last probe gains / loses cluster
+    # ids, with their TSV rows; another spike count; a TSV file appears), merge() AGAIN ON THE SAME OBJECT: the second merged
+    # dataset is the one a fresh Merger writes.  Controls: unchanged inputs, a fresh object per merge, output emptied between
+    KS_ = lambda rows: {'cluster_KSLabel.tsv': {'field': 'KSLabel', 'rows': rows}}
+    P0s = dict(P0, clu=[0, 4, 2, 5], meta=KS_([[0, 'good'], [4, 'mua'], [5, 'noise']]))          # cluster 1 -> new cluster 5
+    P0f = dict(P0, clu=[0, 2, 2, 1], meta=KS_([[0, 'good'], [2, 'mua']]))                      # cluster 4 merged into 2
+    addc([P0s, P1], history=[[P0, P1]])
+    addc([P0f, P1, P2], history=[[P0, P1, P2]], names=['b', 'a', 'c'])
+    addc([P1, P0s, P1], history=[[P1, P0f, P1], [P1, P0, P1]])
+    addc([P0, P1], history=[[dict(P0, times=[1, 3], amps=[1.0, 2.0], tmpl=[0, 2], clu=[0, 1], meta={}), dict(P1, meta={})]])
+    addc([P0s, P1], history=[[P0, P1]], hist_out='clear', info=True)
+    addc([P0s, P1], history=[[P0, P1]], hist_merger='fresh')
+    addc([P0, P1], history=[[P0, P1]])
+    addc([dict(P0, extra_t=1), P1], history=[[dict(P0, tmpl=[0, 1, 1, 1], meta={}), P1]])       # template count changed
     # fixed defect 1 (fix-c11): a probe with exactly one spike, in every position, alone with a second one-spike probe
     add([P0, P1, P2]); add([P2, P0]); add([P0, P2, P1]); add([P2, dict(P2, times=[3], clu=[0])])
     add([dict(P2, vec2d=True), P1])
@@ -305,7 +398,7 @@ def _corpus(rng):
     # a probe without spikes: np.max raises (error exit of the model)
     add([P0, {'times': [], 'amps': [], 'tmpl': [], 'clu': [], 'meta': {}}])
     for c in cases:
-        for p in c['inp']['probes']:
+        for p in c['inp']['probes'] + [e for st in c['inp'].get('history', []) for e in st]:
             for key, dv in (('tdt', 'uint64'), ('adt', 'float64'), ('idt', 'uint32'), ('cdt', 'uint32'), ('vec2d', False),
                             ('extra_t', 0)):
                 p.setdefault(key, dv)
@@ -320,6 +413,9 @@ def generate(tier, rng):
         for c in cases[ncorpus:]:
             if rng.random() < 0.5:
                 _caller(c['inp'], rng)
+        for c in cases[ncorpus:]:
+            if rng.random() < 0.3:
+                _history(c['inp'], rng)
         return cases
     quick = tier == 'quick'
     vals = [0, 1, 2]
@@ -365,6 +461,11 @@ def generate(tier, rng):
     for c in cases[ncorpus:]:
         if rng.random() < 0.5:
             _caller(c['inp'], rng)
+    # the history of the Merger object (earlier merges of earlier contents of the same directories) on a quarter of the
+    # generated merges; drawn last, for the same reason
+    for c in cases[ncorpus:]:
+        if rng.random() < 0.25:
+            _history(c['inp'], rng)
     return cases
 
 
@@ -376,11 +477,10 @@ def run_case(case):
     inp = case['inp']
     root = tempfile.mkdtemp(prefix='c11_', dir=os.environ.get('VT_WORK') or None)
     try:
-        dirs, out = D11.materialise(inp, root)
+        # the history (earlier merges of earlier contents of the same directories by the same Merger object, stage 6) is
+        # played first; the observed merge is the last one, of inp['probes']
+        mg, dirs, out = D11.prepare(inp, root, Merger)
         before = D11.tree_hash(dirs)
-        a_dirs, a_out = D11.as_passed(inp, dirs, out)
-        pinfo = D11.probe_info(inp)
-        mg = Merger(a_dirs, a_out) if pinfo is None else Merger(a_dirs, a_out, probe_info=copy.deepcopy(pinfo))
         m = mg.merge()
         after = D11.tree_hash(dirs)
 
@@ -562,6 +662,18 @@ def dist(case, obs):
     out.append('out_dir_exists=%s' % bool(inp.get('out_exists')))
     out.append('explicit_probe_info=%s' % bool(inp.get('info')))
     out.append('probe_labels_judged=%s' % bool(inp.get('chk_labels')))
+    hist = inp.get('history', [])
+    out.append('earlier_merges_by_the_same_merger=%d' % (len(hist) if inp.get('hist_merger', 'reused') == 'reused' else 0))
+    out.append('earlier_merges_by_a_fresh_merger=%d' % (len(hist) if inp.get('hist_merger') == 'fresh' else 0))
+    if hist:
+        nid = lambda p: max(p['clu'] + [r[0] for m in p.get('meta', {}).values() for r in m['rows']]) + 1 if p['clu'] else 0
+        out.append('history_out_dir=%s' % inp.get('hist_out', 'keep'))
+        out.append('history_cluster_count_of_nonlast_probe_changed=%s' % any(
+            nid(e) != nid(p) for st in hist for e, p in list(zip(st, ps))[:-1]))
+        out.append('history_spike_count_changed=%s' % any(len(e['times']) != len(p['times']) for st in hist for e, p in zip(st, ps)))
+        out.append('history_template_count_changed=%s' % any(
+            D11.n_templates(e) != D11.n_templates(p) for st in hist for e, p in zip(st, ps)))
+        out.append('history_unchanged_inputs=%s' % all(e == p for st in hist for e, p in zip(st, ps)))
     for fn in META:
         n = sum(1 for p in ps if fn in p.get('meta', {}))
         out.append('%s=%s' % (fn, 'none' if n == 0 else 'all' if n == len(ps) else 'some'))
@@ -575,6 +687,10 @@ def size(case):
     ps = case['inp']['probes']
     inp = case['inp']
     caller = sum(4 for key in CALLER_KEYS if key in inp) + sum(len(nm) for nm in inp.get('names', []))
+    caller += sum(4 for key in HIST_KEYS if key in inp) + sum(
+        40 + sum(20 + 10 * len(e['times']) + sum(e['times']) + sum(e['clu']) + sum(e['tmpl']) +
+                 sum(r[0] for m in e.get('meta', {}).values() for r in m['rows']) +
+                 5 * sum(len(m['rows']) + 1 for m in e.get('meta', {}).values()) for e in st) for st in inp.get('history', []))
     return caller + 50 * len(ps) + sum(10 * len(p['times']) + sum(p['times']) + sum(p['clu']) + sum(p['tmpl']) + (p.get('nt') or 0) +
                               sum(r[0] for m in p.get('meta', {}).values() for r in m['rows']) +
                               5 * sum(len(m['rows']) + 1 for m in p.get('meta', {}).values()) for p in ps)
@@ -591,7 +707,7 @@ def shrink(case):
     inp = case['inp']
     ps = inp['probes']
 
-    extras = {key: copy.deepcopy(inp[key]) for key in CALLER_KEYS if key in inp}
+    extras = {key: copy.deepcopy(inp[key]) for key in CALLER_KEYS + HIST_KEYS if key in inp}
 
     def mk(new, ex=None):
         if sum(len(p['times']) for p in new) < 2 or not new:
@@ -601,13 +717,63 @@ def shrink(case):
         big = inp.get('big') or any(D11.n_templates(p) > 64 for p in new)
         d = dict({'rate': inp.get('rate', 100.0), 'probes': new}, **({'big': True} if big else {}))
         d.update(copy.deepcopy(extras if ex is None else ex))
+        if d.get('history'):
+            if big or any(len(st) != len(new) or sum(len(e['times']) for e in st) < 2 or any(not e['times'] for e in st)
+                          for st in d['history']):
+                return None
+        _norm_hist(d)
         return {'kind': 'merge', 'inp': d}
     out = []
+    # the history first: without it, without one stage, a stage's probe = the probe as it is now, fewer spikes / files / rows
+    # in a stage, the defaults of the two options
+    hist = extras.get('history', [])
+    if hist:
+        out.append(mk(copy.deepcopy(ps), {k2: v for k2, v in extras.items() if k2 not in HIST_KEYS}))
+        for i in range(len(hist)):
+            if len(hist) > 1:
+                out.append(mk(copy.deepcopy(ps), dict(extras, history=hist[:i] + hist[i + 1:])))
+        for key in ('hist_merger', 'hist_out'):
+            if key in extras:
+                out.append(mk(copy.deepcopy(ps), {k2: v for k2, v in extras.items() if k2 != key}))
+
+        def hmk(i, k, e):
+            h = copy.deepcopy(hist)
+            h[i][k] = e
+            return mk(copy.deepcopy(ps), dict(extras, history=h))
+        for i, st in enumerate(hist):
+            for k, e in enumerate(st):
+                if e != ps[k]:
+                    out.append(hmk(i, k, copy.deepcopy(ps[k])))
+        for i, st in enumerate(hist):
+            for k, e in enumerate(st):
+                for j in range(len(e['times'])):
+                    if len(e['times']) > 1:
+                        e2 = copy.deepcopy(e)
+                        for key in ('times', 'amps', 'tmpl', 'clu'):
+                            del e2[key][j]
+                        out.append(hmk(i, k, e2))
+                for fn in list(e.get('meta', {})):
+                    e2 = copy.deepcopy(e)
+                    del e2['meta'][fn]
+                    out.append(hmk(i, k, e2))
+                    for j in range(len(e['meta'][fn]['rows'])):
+                        e2 = copy.deepcopy(e)
+                        del e2['meta'][fn]['rows'][j]
+                        out.append(hmk(i, k, e2))
+                for key in ('clu', 'tmpl', 'times'):
+                    for j in range(len(e['times'])):
+                        if e[key][j] > 0:
+                            e2 = copy.deepcopy(e)
+                            e2[key][j] -= 1
+                            out.append(hmk(i, k, e2))
     for k in range(len(ps)):
         if len(ps) > 1:
             ex = copy.deepcopy(extras)
             if 'names' in ex:
                 del ex['names'][k]
+            if 'history' in ex:
+                for st in ex['history']:
+                    del st[k]
             out.append(mk(copy.deepcopy(ps[:k] + ps[k + 1:]), ex))
     # the caller's side: back to the defaults, one key at a time; names to the shortest names of the same relative order
     for key in CALLER_KEYS:
@@ -679,7 +845,8 @@ def repro(case):
             "from vt import npshim, datasets_c11 as D; npshim.setup_process()\n"
             "import numpy as np\nfrom phylib.io.merge import Merger\n"
             "inp = %r\n"
-            "dirs, out = D.materialise(inp, tempfile.mkdtemp()); m = Merger(dirs, out).merge()\n"
+            "mg, dirs, out = D.prepare(inp, tempfile.mkdtemp(), Merger)   # plays inp['history'] (earlier merges) first\n"
+            "m = mg.merge()\n"
             "for fn in ('spike_times', 'amplitudes', 'spike_templates', 'spike_clusters', 'cluster_probes'):\n"
             "    print(fn, np.load(os.path.join(out, fn + '.npy')).tolist())\n"
             "print({fn: open(os.path.join(out, fn)).read() for fn in D.META_FILES if os.path.exists(os.path.join(out, fn))})\n"
